@@ -236,6 +236,19 @@ func runConfig(env *Env) error {
 		if v, ok := assign["flag"]; ok && mode != "malformed" && observed != v {
 			env.OracleFail(id, fmt.Sprintf("[C19-flagwins] %s: flag says %q, channels %v, effective %q", s.flag, v, assign, observed))
 		}
+		if mode == "pair" {
+			// the documented order: command line, then the explicitly selected file (--config / PS3NETSRV_CONFIG_FILE), then
+			// ./config.ini, then the file in the user configuration directory, then the environment
+			best, bestRank := "", -1
+			for ch := range assign {
+				if rank[ch] > bestRank {
+					best, bestRank = ch, rank[ch]
+				}
+			}
+			if want := assign[best]; observed != want && !(s.boolean && want == "false" && observed == "default") {
+				env.OracleFail(id, fmt.Sprintf("[C19-precedence] %s set to %v: %s should win with %q, effective %q", s.flag, assign, best, want, observed))
+			}
+		}
 		if mode == "single" && observed != s.vals[0] {
 			env.OracleFail(id, fmt.Sprintf("[C19-channel] %s=%q given via %s only: effective %q", s.flag, s.vals[0], c1, observed))
 		}
